@@ -18,6 +18,9 @@ type CharSet struct {
 	sub        *CharSet //optional subtractor
 	negate     bool
 	anything   bool
+	// inverted is set when canonicalize rewrote "everything but one range" into the negated
+	// form of that range; members can only be added after undoing that (undoInversion)
+	inverted bool
 
 	ascii *asciiBitmap
 }
@@ -171,6 +174,7 @@ func (c CharSet) Copy() CharSet {
 	ret := CharSet{
 		anything: c.anything,
 		negate:   c.negate,
+		inverted: c.inverted,
 	}
 
 	ret.ranges = append(ret.ranges, c.ranges...)
@@ -548,6 +552,7 @@ func (c *CharSet) addWord(ecma, negate bool) {
 
 // Add set ranges and categories into ours -- no deduping or anything
 func (c *CharSet) addSet(set CharSet) {
+	c.undoInversion()
 	if c.anything {
 		return
 	}
@@ -568,6 +573,7 @@ func (c *CharSet) makeAnything() {
 }
 
 func (c *CharSet) addCategories(cats ...Category) {
+	c.undoInversion()
 	// don't add dupes and remove positive+negative
 	if c.anything {
 		// if we've had a previous positive+negative group then
@@ -598,6 +604,7 @@ func (c *CharSet) addCategories(cats ...Category) {
 
 // Merges new ranges to our own
 func (c *CharSet) addRanges(ranges []SingleRange) {
+	c.undoInversion()
 	if c.anything {
 		return
 	}
@@ -607,6 +614,7 @@ func (c *CharSet) addRanges(ranges []SingleRange) {
 
 // Merges everything but the new ranges into our own
 func (c *CharSet) addNegativeRanges(ranges []SingleRange) {
+	c.undoInversion()
 	if c.anything {
 		return
 	}
@@ -701,6 +709,7 @@ func (c *CharSet) addCategory(categoryName string, negate, caseInsensitive bool)
 // Adds to the class any case-equivalence versions of characters already
 // in the class. Used for case-insensitivity.
 func (c *CharSet) addCaseEquivalences() {
+	c.undoInversion()
 	// a subtracted class removes the same characters whatever their case
 	if c.sub != nil {
 		c.sub.addCaseEquivalences()
@@ -747,6 +756,7 @@ func (c *CharSet) addSubtraction(sub *CharSet) {
 }
 
 func (c *CharSet) addRange(chMin, chMax rune) {
+	c.undoInversion()
 	c.ranges = append(c.ranges, SingleRange{First: chMin, Last: chMax})
 	c.canonicalize()
 }
@@ -796,6 +806,29 @@ func (c *CharSet) addNamedASCII(name string, negate bool) bool {
 	}
 
 	return true
+}
+
+// undoInversion turns a set that canonicalize put into negated form back into the plain list
+// of its members, so that more members can be added (adding to the negated form would add to
+// the excluded range instead).
+func (c *CharSet) undoInversion() {
+	if !c.inverted {
+		return
+	}
+	excluded := c.ranges
+	c.ranges = nil
+	c.negate = false
+	c.inverted = false
+	var next rune
+	for _, r := range excluded {
+		if next < r.First {
+			c.ranges = append(c.ranges, SingleRange{next, r.First - 1})
+		}
+		next = r.Last + 1
+	}
+	if next <= unicode.MaxRune {
+		c.ranges = append(c.ranges, SingleRange{next, unicode.MaxRune})
+	}
 }
 
 type singleRangeSorter []SingleRange
@@ -867,6 +900,7 @@ func (c *CharSet) canonicalize() {
 				c.ranges[0].Last < c.ranges[1].First-1 {
 				c.ranges = []SingleRange{{c.ranges[0].Last + 1, c.ranges[1].First - 1}}
 				c.negate = true
+				c.inverted = true
 			}
 		} else if len(c.ranges) == 1 {
 			switch c.ranges[0].First {
@@ -875,12 +909,14 @@ func (c *CharSet) canonicalize() {
 				if c.ranges[0].Last == unicode.MaxRune-1 {
 					c.ranges[0] = SingleRange{unicode.MaxRune, unicode.MaxRune}
 					c.negate = true
+					c.inverted = true
 				}
 			case 1:
 				// Or everything but the first char?
 				if c.ranges[0].Last >= unicode.MaxRune {
 					c.ranges[0] = SingleRange{'\x00', '\x00'}
 					c.negate = true
+					c.inverted = true
 				}
 			}
 		}
@@ -920,6 +956,7 @@ func (c *CharSet) canonicalize() {
 // Adds to the class any lowercase versions of characters already
 // in the class. Used for case-insensitivity.
 func (c *CharSet) addLowercase() {
+	c.undoInversion()
 	if c.anything {
 		return
 	}
